@@ -409,3 +409,71 @@ pub fn walk_forest(ix: &DecodedIndex, expected_items: &BTreeSet<u32>) -> Result<
     }
     Ok(fw)
 }
+
+
+/// What the reference layout prescribes for the *header* of every leaf of an index right after a
+/// successful build (finite data only): Euclidean/Manhattan and their quantised forms store a zero
+/// bias; Cosine stores the vector's norm; DotProduct stores, in every leaf alike, the square of the
+/// greatest norm of the index and the extra coordinate sqrt(that - |v|^2).
+pub fn check_leaf_headers(di: &DecodedIndex, metric: Metric) -> Result<(), String> {
+    let f = |b: &[u8]| f32::from_ne_bytes(b.try_into().unwrap());
+    let sq = |v: &[f32]| v.iter().map(|x| *x as f64 * *x as f64).sum::<f64>();
+    match metric {
+        Metric::Euclidean | Metric::Manhattan | Metric::BqEuclidean | Metric::BqManhattan => {
+            for (id, l) in &di.items {
+                if l.header.len() == 4 && f(&l.header).to_bits() != 0f32.to_bits() {
+                    return Err(format!("item {id}: bias {} in the leaf header, the layout prescribes 0", f(&l.header)));
+                }
+            }
+        }
+        Metric::Cosine => {
+            for (id, l) in &di.items {
+                let Some(v) = metric.decode_vector(&l.vector) else { continue };
+                let want = sq(&v).sqrt();
+                let got = f(&l.header) as f64;
+                if !want.is_finite() || want > 1e18 || (want != 0.0 && want < 1e-18) {
+                    continue;
+                }
+                if (got - want).abs() > 1e-3 * want.max(1e-30) {
+                    return Err(format!("item {id}: the cosine leaf header holds {got}, the norm of the stored vector is {want}"));
+                }
+            }
+        }
+        Metric::DotProduct => {
+            let mut max_sq = 0f64;
+            for l in di.items.values() {
+                if let Some(v) = metric.decode_vector(&l.vector) {
+                    max_sq = max_sq.max(sq(&v));
+                }
+            }
+            if !max_sq.is_finite() || max_sq > 1e30 || (max_sq != 0.0 && max_sq < 1e-30) {
+                return Ok(());
+            }
+            let mut first: Option<(u32, u32)> = None;
+            for (id, l) in &di.items {
+                if l.header.len() != 8 {
+                    continue;
+                }
+                let (extra, norm) = (f(&l.header[0..4]), f(&l.header[4..8]));
+                match first {
+                    None => first = Some((*id, norm.to_bits())),
+                    Some((id0, b)) if b != norm.to_bits() => {
+                        return Err(format!("dot-product leaves {id0} and {id} carry different bounds ({} and {norm}) right after a build: every leaf stores the current greatest squared norm", f32::from_bits(b)))
+                    }
+                    _ => {}
+                }
+                if (norm as f64 - max_sq).abs() > 1e-3 * max_sq.max(1e-30) {
+                    return Err(format!("item {id}: the dot-product leaf header holds the bound {norm}, the greatest squared norm of the index is {max_sq}"));
+                }
+                let Some(v) = metric.decode_vector(&l.vector) else { continue };
+                let want = (max_sq - sq(&v)).max(0.0).sqrt();
+                // (cancellation when |v| is close to the maximum: compare the squares)
+                if ((extra as f64) * (extra as f64) - want * want).abs() > 2e-3 * max_sq.max(1e-30) {
+                    return Err(format!("item {id}: extra coordinate {extra} in the leaf header, expected {want}"));
+                }
+            }
+        }
+        Metric::BqCosine => {}
+    }
+    Ok(())
+}
